@@ -45,6 +45,10 @@ class DiscStorage:
             return set()
 
     def persist(self, name):
+        if "*" not in name:
+            # a full-length hash is written without "*", the unreferenced file still has the "-new" infix
+            stem, dot, suffix = name.partition(".")
+            name = f"{stem}*{dot}{suffix}"
         try:
             file = self._lookup_path(name)
         except HashError:
